@@ -41,6 +41,12 @@ func (s *failSink) add(f failure) {
 	}
 }
 
+func (s *failSink) count() int {
+	s.mu.Lock()
+	defer s.mu.Unlock()
+	return len(s.m)
+}
+
 func fv(x *big.Int) *btcec.FieldVal {
 	var f btcec.FieldVal
 	b := ref.Bytes32(x)
